@@ -89,6 +89,8 @@ def run(ck: Checker, prog: Program, tier: str):
     # behind the back of the metadata that is written with it
     with ck.borrow(c08, "C12.R7+"):
         ck.guard(c08._members_private, ck, prog)
+    from .common import check_identity_comparisons as _cic
+    ck.guard(_cic, ck, prog, "C12.R1", "C12")
 
 
 def _meta_private(ck: Checker, prog: Program):
